@@ -1,0 +1,28 @@
+//go:build verif
+
+// Verification hooks (build tag verif only): let the /verif fixture tracer observe every scheduling
+// round of the integration fixtures. With the tag off, verif_hook_off.go provides empty functions.
+
+package integration_tests_utils
+
+import "github.com/NVIDIA/KAI-scheduler/pkg/scheduler/framework"
+
+// VerifRoundTracer, when set, is called with the fresh session of a round before any action runs;
+// the function it returns is called when the round's actions are done.
+var VerifRoundTracer func(testName string, ssn *framework.Session) func()
+
+// VerifActionTracer, when set, is called before (begin=true) and after every action of a round.
+var VerifActionTracer func(action string, begin bool)
+
+func verifTraceRound(testName string, ssn *framework.Session) func() {
+	if VerifRoundTracer != nil {
+		return VerifRoundTracer(testName, ssn)
+	}
+	return func() {}
+}
+
+func verifTraceAction(action string, begin bool) {
+	if VerifActionTracer != nil {
+		VerifActionTracer(action, begin)
+	}
+}
